@@ -20,12 +20,16 @@ class MinMaxValue(GenericValue):
     def _generic_cmp(self, other):
         if self._old_value is undefined:
             state().missing_values += 1
+        else:
+            # compare with the current value first,
+            # a comparison which raises should not record anything
+            old_result = self.cmp(self._old_value, other)
 
         if self._new_value is undefined:
             self._new_value = clone(other)
             if self._old_value is undefined:
                 return True
-            return self._return(self.cmp(self._old_value, other))
+            return self._return(old_result)
         else:
             if not self.cmp(self._new_value, other):
                 self._new_value = clone(other)
@@ -33,14 +37,16 @@ class MinMaxValue(GenericValue):
         if self._old_value is undefined:
             return True
 
-        return self._return(
-            self.cmp(self._old_value, other), self.cmp(self._visible_value(), other)
-        )
+        return self._return(old_result, self.cmp(self._visible_value(), other))
 
     def _new_code(self):
         return self._file._value_to_code(self._new_value)
 
     def _get_changes(self) -> Iterator[Change]:
+        if self._new_value is undefined:
+            # the only comparison raised an exception
+            return
+
         new_token = value_to_token(self._new_value)
         if not self.cmp(self._old_value, self._new_value):
             flag = "fix"
